@@ -29,6 +29,9 @@
 EXTENDS Naturals, Sequences, FiniteSets, TLC
 
 CONSTANT Dev   \* "EnvKeptOnAbort": an invocation that ends in a host-side exception leaves its environment on the stack
+               \* "LoadDataTableMutableWithinPage": the table handed out by mw.loadData / mw.loadJsonData is the cached
+               \*    object itself, writable, and the cache lives until start_page (as-is); ideal: what one invocation
+               \*    writes into it is not there for the next top-level invocation (read-only table or own copy)
 
 \* ---- invocation kinds (the harness has one concrete #invoke per kind) ----
 Counter == {"bump", "bump2", "peek"}        \* Module:Ctr, module-level `local n = 0`
@@ -36,9 +39,12 @@ Probes  == Counter \cup {"reqbump",         \* Module:Req: require("Module:Ctr")
                          "gset", "gget",    \* Module:G: sets / reads the global MARK
                          "rget",            \* Module:R: another module reading the global MARK
                          "sset", "sget"}    \* Module:Str: patches / reads string.leaked (the per-invocation clone of `string`)
+\* Module:LD: ldset / ljset try to write field x of the table from mw.loadData("Module:LDdata") / mw.loadJsonData("Module:LJ.json")
+\* (inside pcall: a read-only table is as good as a private copy) and return the value read BEFORE; ldget / ljget read it
+LoadData == {"ldset", "ldget", "ljset", "ljget"}
 InBand  == {"nofn", "err", "loaderr"}       \* Lua-side failures returned as ok = false
 Raising == {"nomod", "nilmod", "synmod", "badutf", "timeout"}   \* end in an exception on the Python side
-Simple  == Probes \cup InBand \cup Raising
+Simple  == Probes \cup LoadData \cup InBand \cup Raising
 \* Module:N: sets the global MARK, then makes a NESTED #invoke through frame:preprocess (n_) or
 \* frame:expandTemplate (t_) and returns the nested result in brackets
 Nested  == {"n_nomod", "n_nilmod", "n_synmod", "n_badutf", "n_nofn", "n_err", "n_loaderr", "n_bump", "t_nomod", "t_badutf", "t_bump"}
@@ -50,19 +56,23 @@ Kinds == Simple \cup Nested \cup {"page"}   \* "page": the caller begins a new p
 Disturbing == InBand \cup Raising \cup Nested
 
 \* page modules that exist, compile and return a table
-Mods == {"Ctr", "Req", "G", "R", "Str", "F", "N"}
+Mods == {"Ctr", "Req", "G", "R", "Str", "F", "N", "LD"}
 ModOf(k) == CASE k \in Counter -> "Ctr" [] k = "reqbump" -> "Req" [] k \in {"gset", "gget"} -> "G" [] k = "rget" -> "R"
-              [] k \in {"sset", "sget"} -> "Str" [] k \in {"nofn", "err", "badutf", "timeout"} -> "F"
+              [] k \in {"sset", "sget"} -> "Str" [] k \in LoadData -> "LD" [] k \in {"nofn", "err", "badutf", "timeout"} -> "F"
               [] k = "nomod" -> "Nomod" [] k = "nilmod" -> "Nil" [] k = "synmod" -> "Syn" [] k = "loaderr" -> "Bad"
               [] k \in Nested -> "N"
 
 Env0 == [g |-> "nil", s |-> "nil"]                       \* _G after _lua_reset_env: no MARK, string.leaked = nil
 NoInst == [on |-> FALSE, n |-> 0, env |-> 0]
-S0 == [heap |-> <<>>, stk |-> <<>>, loaded |-> [m \in Mods |-> NoInst]]
+Data0 == [ld |-> "init", lj |-> "init"]                \* field x of the two data tables as their pages define it
+S0 == [heap |-> <<>>, stk |-> <<>>, loaded |-> [m \in Mods |-> NoInst], data |-> Data0]
 TopIdx(s) == s.stk[Len(s.stk)]
 TopEnv(s) == IF s.stk = <<>> THEN Env0 ELSE s.heap[TopIdx(s)]
 
-Reset(s) == IF s.stk = <<>> THEN [s EXCEPT !.loaded = [m \in Mods |-> NoInst]] ELSE s
+Reset(s) == IF s.stk = <<>>
+            THEN [s EXCEPT !.loaded = [m \in Mods |-> NoInst],
+                           !.data = IF "LoadDataTableMutableWithinPage" \in Dev THEN @ ELSE Data0]
+            ELSE s
 Push(s)  == [s EXCEPT !.heap = Append(@, TopEnv(s)), !.stk = Append(@, Len(s.heap) + 1)]
 \* entry = length of the stack when call_lua_sandbox was entered: everything pushed since is removed
 Leave(s, entry, aborted) ==
@@ -92,6 +102,10 @@ Body(s, k) ==
          [] k \in {"gget", "rget"} -> R(s1, "val", s1.heap[inst.env].g, FALSE)
          [] k = "sset" -> R([s1 EXCEPT !.heap[inst.env].s = "set"], "val", s1.heap[inst.env].s, FALSE)
          [] k = "sget" -> R(s1, "val", s1.heap[inst.env].s, FALSE)
+         [] k = "ldset" -> R([s1 EXCEPT !.data.ld = "set"], "val", s1.data.ld, FALSE)
+         [] k = "ldget" -> R(s1, "val", s1.data.ld, FALSE)
+         [] k = "ljset" -> R([s1 EXCEPT !.data.lj = "set"], "val", s1.data.lj, FALSE)
+         [] k = "ljget" -> R(s1, "val", s1.data.lj, FALSE)
 
 Out(k, res, v, ires, iv) == [k |-> k, res |-> res, v |-> v, ires |-> ires, iv |-> iv]
 InvS(s, k) == LET b == Body(Push(Reset(s)), k) IN [s |-> Leave(b.s, Len(s.stk), b.ab), res |-> b.res, v |-> b.v]
@@ -101,7 +115,7 @@ InvN(s, k) ==
       i == InvS(s2, Inner(k))                                            \* nested: the stack is not empty, no reset
   IN [s |-> Leave(i.s, Len(s.stk), FALSE), o |-> Out(k, "val", "", i.res, i.v)]
 Invoke(s, k) ==
-  IF k = "page" THEN [s |-> [s EXCEPT !.stk = <<>>], o |-> Out(k, "page", "", "none", "")]
+  IF k = "page" THEN [s |-> [s EXCEPT !.stk = <<>>, !.data = Data0], o |-> Out(k, "page", "", "none", "")]
   ELSE IF k \in Nested THEN InvN(s, k)
   ELSE LET r == InvS(s, k) IN [s |-> r.s, o |-> Out(k, r.res, r.v, "none", "")]
 
